@@ -174,7 +174,7 @@ bool is_double(const char* p) {
   while (is_digit(*p)) ++p;
   if (*p == '.') {
     ++p;
-    while (is_digit(*++p)) ++p;
+    while (is_digit(*p)) ++p;
   }
   while (is_space(*p)) ++p;
   return *p == '\0';
